@@ -15,6 +15,49 @@ CHECKS = {
          "component per state vector, numpy row assignment copies, documented contract of bisect.bisect_right, np.empty's first dimension.",
     technique="contract-based deductive verification: pyvc VC generation from the AST of the real methods + z3/cvc5; bounded native contract check as cross-check",
     engine="pyvc"),
+ "C01": dict(
+    level=("exploration", "Bounded run-time contract check: the postcondition of CircuitTemplate.get_run_func (distinct state layout, declared "
+            "argument values, derivative == reference semantics at random states and parameter draws) is evaluated on structured and seeded "
+            "families of generated models; no verifier installed here can execute the sympy/networkx/exec pipeline symbolically, so nothing "
+            "is claimed beyond the enumerated cases.", "5 C01"),
+    note="Trusted: MDL rendering and spec_rhs (harness, no string parsing), float64 tolerance 1e-8, fork-per-case isolation.",
+    technique="bounded contract checking of the real API against a pure spec function (labelled bounded, not proved)", engine="rtc", rtc=True),
+ "C03": dict(
+    level=("other", "Proved core + bounded shell. Deductive (unbounded in steps, cadence, state): the real _solve_euler/_solve_heun loops (ODE and "
+            "DDE variants) return exactly the Euler/Heun iterates in the stated rows, call the vector field with the step counter, feed the history "
+            "through DDEHistory.update's contract; BaseBackend.run builds the stated time axis; Base._solve dispatches by name. Bounded: "
+            "CircuitTemplate.run against spec iterates on a (T, dt, dts, cutoff, solver, vectorize) grid and adaptive solvers against a tight reference.", "5 C03"),
+    note="Trusted: pyvc encoding (floats as reals, one representative component, value semantics of the vector field), z3/cvc5, "
+         "spec_rhs/spec_fixed_step, pandas/scipy.",
+    technique="contract-based deductive verification (pyvc: VCs from the AST of the real solver loops, z3/cvc5) + bounded contract checking of run()",
+    engine="pyvc", rtc=True),
+ "C04": dict(
+    level=("exploration", "Bounded: every family member is compiled and simulated with vectorize on and off in separate fresh processes and the two "
+            "are compared with each other, frontend variable by frontend variable.", "5 C04"),
+    note="Trusted: the harness mapping of frontend variables to positions (get_variable_positions as run() uses it).",
+    technique="bounded differential contract checking (vectorize on vs off) on generated model families", engine="rtc", rtc=True),
+ "C09": dict(
+    level=("other", "Deductive: the delay discretisation NetworkGraph._preprocess_delay returns round-half-even(delay/step) for fixed steps and the "
+            "delay itself otherwise, for all inputs. Bounded: run(solver='euler') against the explicitly delayed recurrence on families with mixed "
+            "delayed/undelayed edges, shared sources/targets, rings, vectorize on/off.", "5 C09"),
+    note="Trusted: pyvc encoding, np.round as round-half-even on reals; spec_fixed_step.",
+    technique="contract-based deductive verification of the discretisation function + bounded contract checking of run() against the delayed recurrence",
+    engine="pyvc", rtc=True),
+ "C11": dict(
+    level=("exploration", "Bounded: run() against the explicitly augmented linear-chain ODE (n = round((d/s)^2) stages of rate n/d) on families of "
+            "(delay, spread) mixtures, vectorize on/off.", "5 C11"),
+    note="Trusted: spec_fixed_step's explicit chain.", technique="bounded contract checking of run() against the explicit augmented ODE", engine="rtc", rtc=True),
+ "C18": dict(
+    level=("other", "Deductive: for any number of parameters the slot list of the real _auto_param_indices (blocked range = the class constant in the "
+            "current source) is strictly increasing, 1..9 first, never PAR(11)..PAR(14). Bounded: the same natively for 0..N parameters and text-level "
+            "consistency of emitted files where available.", "5 C18"),
+    note="Trusted: pyvc encoding (exact integers); every caller passes the class constant.",
+    technique="contract-based deductive verification (loop invariant over the slot allocator) + bounded native checks", engine="pyvc", rtc=True),
+ "C20": dict(
+    level=("other", "Deductive: _validate_solver (against every backend's SUPPORTED_SOLVERS), _solve of Base/JAX/Fortran and _validate_backend_args raise "
+            "exactly when the trigger holds and before any result-producing call. Bounded: guard matrix on real backend objects and malformed model variants.", "5 C20"),
+    note="Trusted: pyvc encoding of strings/tuples; callees without contract are opaque and only counted.",
+    technique="contract-based deductive verification of guard functions (exceptional postconditions with an effect counter) + bounded guard matrix", engine="pyvc", rtc=True),
 }
 
 def main():
